@@ -596,7 +596,32 @@ fn judge(sc: &Scenario, r: &RunResult, line: &str, out: &mut Out) {
                 out.violation("C09", format!("{nreq} simultaneous unit requests, burst {b}: {admitted} admitted, want {}", nreq.min(b)), replay.clone());
             }
         }
-        "hostile" => {
+        "family" => {
+            // distinct keys have independent budgets: with equal timestamps (no refill) every key admits
+            // min(number of unit requests on it, burst), whatever the keys have in common
+            let b = sc.programs[0][0].b;
+            let mut per_key: std::collections::BTreeMap<&str, (i64, i64)> = Default::default();
+            for (ci, idx, resp) in &r.procs {
+                let e = per_key.entry(programs[*ci][*idx].key.as_str()).or_insert((0, 0));
+                e.0 += 1;
+                if resp.starts_with("ok,1") {
+                    e.1 += 1;
+                }
+            }
+            if r.cancels.is_empty() {
+                for (k, (nreq, admitted)) in per_key {
+                    if admitted != nreq.min(b) {
+                        out.violation(
+                            "C09",
+                            format!("{nreq} unit requests at one timestamp on a key of {} bytes, burst {b}: {admitted} admitted, want {} (the scenario's {} distinct keys share a long prefix)", k.len(), nreq.min(b), sc.programs.iter().flatten().map(|r| &r.key).collect::<HashSet<_>>().len()),
+                            replay.iter().map(|l| if l.len() > 800 { format!("{}...", &l[..800]) } else { l.clone() }).collect(),
+                        );
+                        break;
+                    }
+                }
+            }
+        }
+        "hostile" | "hostilekeys" => {
             let pc = programs.len() - 1;
             let got = r.rets.iter().find(|x| x.0 == pc).map(|x| x.2.clone()).unwrap_or("none".into());
             if !got.starts_with("ok,1,") {
@@ -643,6 +668,8 @@ fn exhaustive(sc: &Scenario, cancel_budget: usize, limit: usize, out: &mut Out) 
 }
 
 pub fn run(seed: u64, n: usize, out: &mut Out) {
+    // the actor's `debug!` / `trace!` arguments are only evaluated when a subscriber enables those levels
+    crate::conn::install_trace_capture();
     let mut rng = Rng::new(seed);
     let limit = (n * 30).max(50);
     // --- exhaustive: small configurations
@@ -743,5 +770,75 @@ pub fn run(seed: u64, n: usize, out: &mut Out) {
         if out.samples.len() < 3 && line.len() < 600 {
             out.sample(line.clone());
         }
+    }
+    // --- families of distinct LONG keys sharing a long prefix (C09: one bucket per key, whatever its length)
+    for i in 0..(n / 4).max(3) {
+        let prefix = crate::cmd::FAMILY_PREFIXES[i % 5];
+        let multibyte = (i / 5) % 2 == 1;
+        // the longest keys (and the longest lines) only now and then
+        let max_len = if i % 5 >= 3 || i % 7 == 6 { 60_000 } else { 4_000 };
+        let fam = crate::cmd::prefix_family(&mut rng, &format!("af{i}_"), prefix, multibyte, max_len);
+        let base = base_ts(&mut rng);
+        let b = rng.range(1, 3);
+        let p = rng.pick(&[86400i64, 1 << 20, 3600]);
+        let cap = rng.range(1, 4) as usize;
+        let store = StoreCfg::random(&mut rng);
+        let req = |key: &String| Req { key: key.clone(), b, c: 1, p, q: 1, ts: base };
+        let programs: Vec<Vec<Req>> = if i % 2 == 0 {
+            // one client per key: each sends burst + 1 requests on its own key
+            fam.keys.iter().map(|k| (0..b + 1).map(|_| req(k)).collect()).collect()
+        } else {
+            // client 0 exhausts the first key, then the others race on the siblings (N requests, one client each)
+            let mut ps: Vec<Vec<Req>> = vec![(0..b + 1).map(|_| req(&fam.keys[0])).collect()];
+            for k in &fam.keys[1..] {
+                for _ in 0..rng.range(1, 3) {
+                    ps.push(vec![req(k)]);
+                }
+            }
+            ps
+        };
+        let sc = Scenario { cap, store, programs, probe: None, kind: "family" };
+        let mut r2 = rng.fork();
+        let r = execute(&sc, Policy::Random(&mut r2, 0), 0);
+        let line = emit(&sc, &r, out, &mut seen);
+        judge(&sc, &r, &line, out);
+        out.bump("random_family");
+        out.add("family_key_bytes", fam.keys.iter().map(|k| k.len() as u64).sum());
+    }
+    // --- hostile KEYS with requests the limiter rejects, allows and denies, then a probe (C11; TRACE logging is on)
+    for i in 0..(n / 2).max(4) {
+        let offs = [crate::cmd::STRADDLE_OFFSETS[i % 8], crate::cmd::STRADDLE_OFFSETS[(i + 3) % 8]];
+        let tag = format!("ah{}_", i % 1000);
+        let mut keys: Vec<String> = crate::cmd::straddle_keys(&tag, &offs).into_iter().map(|x| x.1).collect();
+        keys.extend(crate::cmd::hostile_keys(&tag, (i % 1000) as u32).into_iter().map(|x| x.1));
+        let base = base_ts(&mut rng);
+        let nc = rng.range(2, 4) as usize;
+        let mut all: Vec<Req> = vec![];
+        for k in &keys {
+            for (b, c, p, q) in crate::cmd::REJECTED {
+                all.push(Req { key: k.clone(), b, c, p, q, ts: base });
+            }
+            // allowed, then denied
+            all.push(Req { key: k.clone(), b: 1, c: 1, p: 3600, q: 1, ts: base });
+            all.push(Req { key: k.clone(), b: 1, c: 1, p: 3600, q: 1, ts: base });
+        }
+        // a seed-chosen third of them, dealt to the clients
+        let mut programs: Vec<Vec<Req>> = vec![vec![]; nc];
+        for (j, r) in all.into_iter().enumerate() {
+            if rng.chance(1, 3) {
+                programs[j % nc].push(r);
+            }
+        }
+        programs.retain(|p| !p.is_empty());
+        if programs.is_empty() {
+            continue;
+        }
+        let probe = Req { key: format!("probe-hk{i}"), b: 2, c: 1, p: 60, q: 1, ts: base + 100_000_000_000 };
+        let sc = Scenario { cap: rng.range(1, 4) as usize, store: StoreCfg::random(&mut rng), programs, probe: Some(probe), kind: "hostilekeys" };
+        let mut r2 = rng.fork();
+        let r = execute(&sc, Policy::Random(&mut r2, 0), 0);
+        let line = emit(&sc, &r, out, &mut seen);
+        judge(&sc, &r, &line, out);
+        out.bump("random_hostilekeys");
     }
 }
